@@ -25,10 +25,11 @@
   Programs the canonical layout cannot write (`canonOk`: a string body with a raw quote / line feed,
   `br` without condition, a full image of 65,535 words followed by anything but `.blkw 0`) are skipped.
 
-  Third computation (ties the HARNESS renderer to `Spec.render`): for every text of a program the
-  specification accepts, a layout is read off the text (`Driver/Layout.lean`) and validated by
-  evaluating `render L P = text ∧ L.ok P`; then the text provably lies in the range of `Spec.render`
-  and `assemble_image_render` applies to it.  A text outside the range turns the `S` answer into
+  Third computation (ties the HARNESS renderer to `Spec.render`): for every text of a program in the
+  domain — accepted or rejected by the specification — a layout is read off the text
+  (`Driver/Layout.lean`) and validated by evaluating `render L P = text ∧ L.ok P`; then the text
+  provably lies in the range of `Spec.render` and `assemble_image_render` (accepted programs) /
+  `C04.accept_iff_wf_render` (both directions) applies to it.  A text outside the range turns the `S` answer into
   `outside-render-range` (programs that are not `Prog.renderable` are exempt).
 -/
 import Driver.Proto
@@ -140,9 +141,10 @@ def renderCheck (flag : Bool) (P : Prog) : Option String :=
     if m == s then none else some ("spec-render-mismatch " ++ m ++ " ## " ++ s)
   else none
 
-/-- every text of an accepted, renderable program is `render L P` for a well-formed layout `L` -/
-def rangeCheck (flag : Bool) (P : Prog) (texts : List (List Char)) : Option String :=
-  if P.syntaxOk && P.renderable && (P.image flag).isSome then
+/-- every text of a renderable program — accepted or rejected by the specification — is `render L P`
+for a well-formed layout `L` -/
+def rangeCheck (_flag : Bool) (P : Prog) (texts : List (List Char)) : Option String :=
+  if P.syntaxOk && P.renderable then
     if texts.all (Lay.inRange P) then none else some "outside-render-range"
   else none
 
